@@ -285,7 +285,26 @@ def run_property(prop, cfg, tier, known, only=None):
         elif deviating and state["code"] == EXIT_OK and not cfg.get("nested"):
             inconclusive(f"program {deviating[0][0]} behaves differently under the Core ({deviating[0][1]}) although every obligation on the hosting loop was discharged: the difference lies outside the encoded loop")
     except (Unsupported, KeyError, IndexError, AttributeError, ValueError, TypeError) as u:
-        inconclusive(f"{unit}: encoder gap: {type(u).__name__}: {u}")
+        # the loop no longer has the shape the encoding knows: the native programs decide whether that matters
+        gap = f"{unit}: not in the shape the encoding knows ({type(u).__name__}: {str(u)[:120]})"
+        sample["encoder_gap"] = gap
+        try:
+            runs = host_runs(binp)
+            deviating = [(p_, r_) for p_, r_ in sorted(runs.items()) if r_.get("direct") != r_.get("core")]
+        except Exception:  # noqa
+            deviating = []
+        if deviating and not cfg.get("nested"):
+            p_, r_ = deviating[0]
+            os.makedirs(os.path.join(REPLAYS, prop), exist_ok=True)
+            rp = os.path.join(REPLAYS, prop, f"{unit}-{p_}.json")
+            json.dump({"property": prop, "engine": "mir", "module": "c05m", "unit": unit, "program": p_, "direct": r_.get("direct"), "core": r_.get("core"),
+                       "obligations": [gap]}, open(rp, "w"), indent=1)
+            say(f"VIOLATION property={prop} replay={rp}")
+            say(f"  {gap}; program {p_}: inspected directly `{r_.get('direct')}`, hosted by the Core `{r_.get('core')}`")
+            res["findings"].append({"known": False, "unit": unit, "desc": gap, "replay": rp})
+            state["code"] = EXIT_VIOLATION
+        else:
+            inconclusive(gap)
     finally:
         if z3 is not None:
             errs = z3.errors + cv.errors
